@@ -257,6 +257,17 @@ func c14Run(srv *c14Server, c c14Case) (res c14Result) {
 			}
 			ok, err := cn.channel.SendRequest("shell", true, nil)
 			outcome = fmt.Sprintf("shell request ok=%v err=%v", ok, err)
+		case "otherchannel":
+			if cn.state != "authed" {
+				break
+			}
+			kind := []string{"direct-tcpip", "x11", "nonsense"}[rng.Intn(3)]
+			_, _, err := cn.client.OpenChannel(kind, nil)
+			outcome = fmt.Sprintf("channel %s: rejected=%v", kind, err != nil)
+			// the connection must still be usable
+			if _, _, err := cn.client.SendRequest("keepalive@verif", true, nil); err != nil {
+				outcome += " (connection gone: " + err.Error() + ")"
+			}
 		case "close":
 			if cn.state != "authed" {
 				break
